@@ -215,7 +215,10 @@ def run(repo: Repo, chk: Check):
         if n.kind == "test" and norm(n.ast).endswith(".is_constexpr"):
             ifn = n.stmt
             txt = " ".join(norm(s) for s in ifn.body)
-            arm_ok = "IC10Operand(data.constant_value)" in txt and isinstance(ifn.body[-1], ast.Return)
+            # the arm hands back the folded constant and nothing of a call sequence can follow it
+            after = [b for b, lab in hcfg.succ[n.id] if isinstance(lab, tuple) and lab[0] != "exc" and lab[1] is True]
+            reach = hcfg.reachable(start=after[0]) if after else set()
+            arm_ok = "IC10Operand(data.constant_value)" in txt and not any(e.id in reach for e in emits)
     chk.judge("R12.b", "generate_code:handle_call:constexpr call yields the constant operand", arm_ok, "constexpr arm does not return IC10Operand(data.constant_value)", None,
               f"{g.path}:{hc.lineno}")
     # ---------------------------------------------------------------- R12.c template
@@ -243,9 +246,29 @@ def run(repo: Repo, chk: Check):
             chk.bad("R12.c", "utils:eval_constexpr:the script is not formatted again after the user's source is in it",
                     f"'{norm(b)[:70]}' applies text formatting to {norm(fmt_subject)}, a text assembled earlier that already contains the source of the constexpr functions: "
                     f"a '%' in any of them (modulo, '%s' formatting) is read as a conversion, the compilation fails or the script changes", None, wu)
+    # the variable(s) that hold the script: what is handed to exec / the child's command line, followed back through copies
+    script_names = set()
+    work = []
+    for c in ast.walk(ev):
+        if isinstance(c, ast.Call) and norm(c.func) == "exec" and c.args and isinstance(c.args[0], ast.Name):
+            work.append((c.args[0].id, c))
+        if isinstance(c, ast.Call) and norm(c.func).endswith("Popen") and c.args and isinstance(c.args[0], (ast.List, ast.Tuple)) and c.args[0].elts \
+                and isinstance(c.args[0].elts[-1], ast.Name):
+            work.append((c.args[0].elts[-1].id, c))
+    while work:
+        nm, at = work.pop()
+        if nm in script_names:
+            continue
+        script_names.add(nm)
+        ids_ = [n_.id for n_ in ecfg.nodes_of(at)] if not isinstance(at, int) else [at]
+        for d_ in (erd.at(ids_[0], nm) if ids_ else []):
+            if d_.kind == "assign" and isinstance(d_.value, ast.Name) and not d_.index:
+                work.append((d_.value.id, d_.node))
+    if not script_names:
+        raise AnalysisError("eval_constexpr: the variable holding the evaluation script was not identified")
     tmpl = None
     for st in ast.walk(ev):
-        if isinstance(st, ast.Assign) and isinstance(st.value, ast.JoinedStr) and "import" in norm(st.value) and any(norm(t) == "code" for t in st.targets):
+        if isinstance(st, ast.Assign) and isinstance(st.value, ast.JoinedStr) and "import" in norm(st.value) and any(norm(t) in script_names for t in st.targets):
             tmpl = st.value
     if tmpl is None:
         raise AnalysisError("eval_constexpr: script template not found")
@@ -314,7 +337,7 @@ def run(repo: Repo, chk: Check):
     chk.judge("R12.c", "utils:eval_constexpr:template:result written as json of the call", writer is not None and writer[0] > user_idx and call_hole == "call_node.as_string()",
               f"writer statement {norm(writer[2]) if writer else None} with hole {call_hole}", None, wu)
     # the non-pyodide transport: print(json.dumps(<same call>)) appended, and json.loads on both readers
-    prints = [st for st in ast.walk(ev) if isinstance(st, ast.AugAssign) and norm(st.target) == "code" and isinstance(st.value, ast.JoinedStr)]
+    prints = [st for st in ast.walk(ev) if isinstance(st, ast.AugAssign) and norm(st.target) in script_names and isinstance(st.value, ast.JoinedStr)]
     okp = False
     for p in prints:
         t = "".join(v.value if isinstance(v, ast.Constant) else "<" + hole_text(v.value, p) + ">" for v in p.value.values)
@@ -334,7 +357,24 @@ def run(repo: Repo, chk: Check):
                 return f"<part {ds_[0].index} of {norm(ds_[0].value)}> {e.id}"
         return norm(e)
     srcs = sorted(origin_text(c.args[0], c) for c in loads if c.args)
-    okl = len(loads) >= 2 and any("__result" in s for s in srcs) and any("stdout" in s and "stderr" not in s.replace("stdout, stderr", "") or s.startswith("stdout") for s in srcs)
+
+    def child_output_parts(e, at, depth=0):
+        """which parts of <process>.communicate() the expression is computed from: subset of {0 (stdout), 1 (stderr)}"""
+        out = set()
+        if depth > 4:
+            return out
+        for nm in ast.walk(e):
+            if isinstance(nm, ast.Name) and isinstance(nm.ctx, ast.Load):
+                ids_ = [n_.id for n_ in ecfg.nodes_of(at)]
+                for d_ in (erd.at(ids_[0], nm.id) if ids_ else []):
+                    if d_.kind == "assign" and d_.value is not None and isinstance(d_.value, ast.Call) and isinstance(d_.value.func, ast.Attribute) \
+                            and d_.value.func.attr == "communicate" and d_.index and len(d_.index) == 1:
+                        out.add(d_.index[0])
+                    elif d_.kind == "assign" and d_.value is not None and not d_.index:
+                        out |= child_output_parts(d_.value, ecfg.nodes[d_.node].ast, depth + 1)
+        return out
+    parts = [child_output_parts(c.args[0], c) for c in loads if c.args]
+    okl = len(loads) >= 2 and any("__result" in s for s in srcs) and any(p_ == {0} for p_ in parts)
     chk.judge("R12.c", "utils:eval_constexpr:both transports are read with json.loads", okl, f"json.loads applied to {srcs}", {"readers": srcs}, wu)
     # what is returned is what was read (and cached)
     rets = [r for r in ast.walk(ev) if isinstance(r, ast.Return) and r.value is not None]
